@@ -470,6 +470,18 @@ def r5_batch_labels(ctx):
             if isinstance(it, ast.Subscript) and \
                     subscript_const(it) == 'evolutions':
                 custom = True
+        # nested form: [m for label in <labels> for m in map[label]]
+        if isinstance(n, (ast.GeneratorExp, ast.ListComp)) and \
+                len(n.generators) >= 2:
+            for a, b in zip(n.generators, n.generators[1:]):
+                if isinstance(a.target, ast.Name) and \
+                        isinstance(b.iter, ast.Subscript) and \
+                        isinstance(b.iter.slice, ast.Name) and \
+                        b.iter.slice.id == a.target.id:
+                    it = trace(a.iter, g)
+                    if isinstance(it, ast.Subscript) and \
+                            subscript_const(it) == 'evolutions':
+                        custom = True
     if custom:
         ctx.ok(f, 'custom evolutions are selected by the batch\'s labels too')
     else:
